@@ -1,12 +1,37 @@
 /-
   Props/C03 — Decoders never panic or over-report on arbitrary bytes (property theorems only).
+  This file: the size table and Binary.Skip. The other entry points are in Props/C03_<family>.lean.
 -/
-import Verif.Lemmas.TypeSize
+import Verif.Lemmas.SkipBinCor
 namespace Verif.C03
 
 /-- The size table the skippers index (regenerated from the source on every run) has an entry for
     every byte, the index expression is unsigned, and each entry is the Thrift fixed size:
     indexing it can never panic, for every type byte including values ≥ 0x80. -/
 theorem typeSize_total (t : UInt8) : typeSize t = .ok ((fixedSize t : Nat) : Int) := typeSize_eq t
+
+/-- Binary.Skip on EVERY byte string and EVERY type byte returns a length or an error: it never
+    panics and never performs an unsafe load outside the slice (the model makes every pointer
+    dereference an explicit `load` that yields `oob` outside the slice, and every table index an
+    explicit bounds-checked lookup). -/
+theorem skipBin_safe (b : Bytes) (t : UInt8) :
+    (∀ s, skipBin b t ≠ .panic s) ∧ skipBin b t ≠ .oob := by
+  rcases skipBin_total b t with ⟨n, h⟩ | ⟨e, h⟩ <;> simp [h]
+
+/-- whenever Binary.Skip reports success, the reported length is at most the length of the input -/
+theorem skipBin_le (b : Bytes) (t : UInt8) (n : Nat) (h : skipBin b t = .ok n) : n ≤ b.length := by
+  rw [skipBin_ok_iff] at h
+  exact (refBin_good _ t b n h).2
+
+/-- non-vacuity: the historical overshoot witness (truncated map<string,i64>) is now rejected,
+    and a negative type byte is handled -/
+example : ∃ e, skipBin [0x0b, 0x0a, 0,0,0,1, 0,0,0,0, 0x55] TT.MAP = .err e := by
+  rcases skipBin_total [0x0b, 0x0a, 0,0,0,1, 0,0,0,0, 0x55] TT.MAP with ⟨n, h⟩ | h
+  · have := skipBin_le _ _ _ h
+    rw [skipBin_ok_iff, defaultRecursionDepth_eq] at h
+    have h2 := refBin_le_refLen 64 _ _ _ h
+    have : refLen 65 TT.MAP [0x0b, 0x0a, 0,0,0,1, 0,0,0,0, 0x55] = none := by decide
+    rw [this] at h2; cases h2
+  · exact h
 
 end Verif.C03
